@@ -2,6 +2,7 @@ import Lean.Data.Json
 import EudoxiaModel.Model.Obs
 import EudoxiaModel.Model.Csv
 import EudoxiaModel.Model.SObs
+import EudoxiaModel.Model.Sim
 /-! JSON → observation records (the shape produced by the harness and by the driver itself). -/
 open Lean Eudoxia
 
@@ -129,6 +130,20 @@ def strace (j : Json) : Except String STrace := do
            ops := { pid := ← natList (← field o "pid"), parents := ← (← arr (← field o "parents")).mapM natList },
            prios := ← natList (← field j "prios"), init := ← world (← field j "init"),
            rounds := ← (← arr (← field j "rounds")).mapM sround }
+
+def tickEv (j : Json) : Except String Sim.TickEv := do
+  let l ← arr j
+  return { arrivals := ← natList (← nth l 0), nAsg := ← nat (← nth l 1), nSus := ← nat (← nth l 2),
+           results := ← (← arr (← nth l 3)).mapM (fun x => do let y ← arr x; return ((← nat (← nth y 0)) != 0, ← nat (← nth y 1))),
+           finished := ← (← arr (← nth l 4)).mapM (fun x => do let y ← arr x; return (← nat (← nth y 0), ← nat (← nth y 1))) }
+
+def showFrac (o : Option (Nat × Nat)) : String := match o with | some (a, b) => "[" ++ toString a ++ "," ++ toString b ++ "]" | none => "null"
+def showClass (c : Sim.ClassStats) : String :=
+  "{\"arrivals\":" ++ toString c.arrivals ++ ",\"completions\":" ++ toString c.completions ++ ",\"mean\":" ++ showFrac c.mean ++ ",\"p99\":" ++ showFrac c.p99 ++ "}"
+def showStats (s : Sim.Stats) : String :=
+  "{\"created\":" ++ toString s.created ++ ",\"containers_completed\":" ++ toString s.containersCompleted ++ ",\"assignments\":" ++ toString s.asg ++
+  ",\"suspensions\":" ++ toString s.sus ++ ",\"failures\":" ++ toString s.failures ++ ",\"ctr_p99\":" ++ showFrac s.ctrP99 ++
+  ",\"all\":" ++ showClass s.all ++ ",\"query\":" ++ showClass s.query ++ ",\"interactive\":" ++ showClass s.interactive ++ ",\"batch\":" ++ showClass s.batch ++ "}"
 
 def optV (j : Json) : Option String := match j with | .str s => some s | _ => none
 
